@@ -7,7 +7,7 @@ mkdir -p $ZV_EVIDENCE
 for item in "$@"; do
   sid=${item%%:*}; prop=${item##*:}
   git -C /repo status --short | grep -q . && { echo "/repo not clean, stopping"; exit 1; }
-  git -C /repo apply seeded/$sid/patch.diff || { echo "$sid: patch does not apply"; continue; }
+  git -C /repo apply /verif/seeded/$sid/patch.diff || { echo "$sid: patch does not apply"; continue; }
   ZV_JOBS=14 python3 run/check.py $prop --tier quick --no-evidence > logs/inplace_$sid.log 2>&1; rc=$?
   git -C /repo checkout -- .
   echo "$(date +%H:%M) $sid $prop exit=$rc $(grep -c '^VIOLATION' logs/inplace_$sid.log) VIOLATION line(s); $(grep obligations= logs/inplace_$sid.log | tail -n 1 | cut -c1-120)"
